@@ -109,7 +109,7 @@ pub fn plan(_tier: Tier) -> Plan {
         enumerators: vec![],
         rule: "Histories of retained / non-retained publishes (60% retained, 15% empty payload = clear, replacement frequent) on 6 topics interleaved with new, repeated, shared-group and unsubscribe-then-resubscribe subscriptions (literal and wildcard filters, QoS 0-2). Oracle: the forwards flagged retained that a new non-shared subscription receives are, as a set, exactly the topics whose retained message existed throughout the window between the subscription and its first delivery (each with a value that was that topic's retained message at some moment of the window), nothing for topics that do not match the filter; a forward flagged retained that no new non-shared subscription is owed (live copy, repeated subscription, shared group) is a violation. Non-trivial: a subscription made when >=2 matching retained topics exist after >=1 replacement or clearing, and >=2 retained replays observed.".into(),
         assumptions: vec![
-            "Region R9 (a non-retained empty-payload publish also clears the retained message) is excluded by construction".into(),
+            "Non-retained empty-payload publishes are generated too (they must not touch the retained store)".into(),
             "The replay may be cut to the free delivery window; the completeness clause is applied only when the retained set is far below it".into(),
         ],
         min_nontrivial: 100,
